@@ -180,6 +180,60 @@ def run(chk, tier, seed):
             if o1 == o2 and [o1.match(x) for x in NAMES] != [o2.match(x) for x in NAMES]:
                 chk.violation(dict(obligation='C19.bounded.matcher_objects', call=f'{w1} vs {w2}', witness=''), f'matchers that accept different names compare equal: {w1} vs {w2}', None)
     chk.case(key='matchers', n=m)
+    # matchers built in OTHER interpreters (different hash seeds) and sent over by pickle are equal / hash-equal to the ones built here
+    specs = ["fnmatch.compile(['a*', 'b*', '*.txt', 'c?', '[de]*'], flags=fnmatch.E)", "glob.compile('{a,b,c,d,e,f}*/**', flags=glob.G | glob.B)", "fnmatch.compile('p|q|r|s|t|u', flags=fnmatch.S)",
+             "glob.compile(['**/a', '*.txt', 'd/*'], flags=glob.G | glob.N, exclude=['x*', 'y*', 'z*', '*.bak'])", "fnmatch.compile(['!a*', '!b*', '!c*', 'z*'], flags=fnmatch.N)"]
+    code = PRELUDE + "import pickle, binascii\nprint(json.dumps([binascii.hexlify(pickle.dumps(m)).decode() for m in (" + ', '.join(specs) + ",)]))\n"
+    import binascii
+    local = [eval(sp, dict(env)) for sp in specs]
+    for hs in ('1', '2', '3', '4', '5', '6'):
+        p = subprocess.run([sys.executable, '-c', code], capture_output=True, text=True, env=dict(os.environ, PYTHONHASHSEED=hs))
+        if p.returncode != 0:
+            chk.broke(f'C19 harness: interpreter with PYTHONHASHSEED={hs} failed: {p.stderr[-300:]}')
+            continue
+        for sp, mine, blob in zip(specs, local, json.loads(p.stdout)):
+            other = pickle.loads(binascii.unhexlify(blob))
+            m += 1
+            if not (other == mine and hash(other) == hash(mine) and not (other != mine)):
+                chk.violation(dict(obligation='C19.bounded.matcher_built_in_another_interpreter_is_equal', call=sp, witness=sp),
+                              f'{sp}: the matcher built under PYTHONHASHSEED={hs} and unpickled here is not equal / hash-equal to the one built here',
+                              PRELUDE + f"import subprocess, pickle, binascii, os\nsrc = {PRELUDE!r} + 'import pickle, binascii\\nprint(binascii.hexlify(pickle.dumps({sp})).decode())'\n"
+                              f"outs = [subprocess.run([sys.executable, '-c', src], capture_output=True, text=True, env=dict(os.environ, PYTHONHASHSEED=h)).stdout.strip() for h in '123456']\n"
+                              f"ms = [pickle.loads(binascii.unhexlify(o)) for o in outs]\nprint([x == ms[0] for x in ms])\nsys.exit(0 if all(x == ms[0] and hash(x) == hash(ms[0]) for x in ms) else 1)\n")
+    chk.case(key='matchers-across-interpreters', n=m)
+    # the process state later calls depend on is left as it was: no file descriptor stays open after glob / iglob (also with dir_fd, also when abandoned early)
+    import tempfile
+    import shutil
+    tmp = tempfile.mkdtemp(prefix='c19-')
+    try:
+        for d in ('a/b/c', 'a/d', 'e/f', '.h/x'):
+            os.makedirs(os.path.join(tmp, d))
+        open(os.path.join(tmp, 'a/b/c/t.txt'), 'w').close()
+        nfd = lambda: len(os.listdir('/proc/self/fd'))          # noqa: E731
+        dfd = os.open(tmp, os.O_RDONLY | os.O_DIRECTORY)
+        try:
+            for what, call in (("glob('**', dir_fd)", lambda: glob.glob('**', flags=glob.G, dir_fd=dfd)), ("glob('**/*.txt', root_dir)", lambda: glob.glob('**/*.txt', flags=glob.G, root_dir=tmp)),
+                               ("glob(b'**', dir_fd)", lambda: glob.glob(b'**', flags=glob.G | glob.D, dir_fd=dfd)), ("glob('a/*/c/*', dir_fd)", lambda: glob.glob('a/*/c/*', dir_fd=dfd)),
+                               ("globfilter(REALPATH, dir_fd)", lambda: glob.globfilter(['a/b', 'a/b/c/t.txt', 'zz'], '**', flags=glob.G | glob.P, dir_fd=dfd)),
+                               ("iglob abandoned after one item", lambda: next(glob.iglob('**', flags=glob.G, dir_fd=dfd)))):
+                first = call()
+                before = nfd()
+                for _ in range(5):
+                    again = call()
+                import gc
+                gc.collect()
+                after = nfd()
+                m += 1
+                if after != before or again != first:
+                    chk.violation(dict(obligation='C19.bounded.no_file_descriptor_left_open', call=what, witness=what),
+                                  f'{what}: {after - before} descriptors stayed open after 5 calls (same result: {again == first})',
+                                  PRELUDE + "import os, tempfile\nd = tempfile.mkdtemp()\nos.makedirs(d + '/a/b/c')\nfd = os.open(d, os.O_RDONLY)\nn0 = len(os.listdir('/proc/self/fd'))\n"
+                                  "for _ in range(5):\n    glob.glob('**', flags=glob.G, dir_fd=fd)\nn1 = len(os.listdir('/proc/self/fd'))\nprint(n0, n1)\nsys.exit(0 if n0 == n1 else 1)\n")
+        finally:
+            os.close(dfd)
+    finally:
+        shutil.rmtree(tmp, ignore_errors=True)
+    chk.case(key='descriptors', n=m)
     chk.rule = ('bounded cross-check of the frame / cache contracts: every call of a fixed list (15 patterns x 8 flag sets x {fnmatch, glob} filter, translate, bytes, compile+match; '
                 'quick: every third) is evaluated once per fresh interpreter and compared with its value inside seeded shuffled sequences of all the calls with a 300-pattern cache flood, '
                 'and inside 8 concurrently running threads; matcher objects: equality / hash / immutability / pickle-copy-deepcopy clones / reuse')
